@@ -138,7 +138,11 @@ def plan(tier, seed):
     # random leg (every shard visits every class, starting at a different offset)
     for i in range(14 if q else 16):
         specs.append({"kind": "random", "idx": i * 5, "classes": [c["name"] for c in CONFIGS], "budget_s": 35 if q else 420})
+    specs.append({"kind": "concurrent", "idx": 0, "trials": 3 if q else 20})
     return specs
+
+
+CONCURRENT_CLASSES = ["CTR", "CBC", "CFB[128]", "OFB", "DES3-CBC", "ChaCha20", "GCM", "EAX", "ChaCha20-Poly1305"]
 
 
 def finalize(agg, tier):
@@ -154,7 +158,10 @@ def finalize(agg, tier):
             out.append("class %s: no forbidden transition observed" % n)
         if cfg["key"] == "CCM" and (cfg["p"]["msg_len"] is not None or cfg["p"]["assoc_len"]) and not c.get("lenerr:" + n):
             out.append("class %s: no length-error transition observed" % n)
-    for k in ("TypeError_seen", "copies", "random_sequences", "exhaustive_sequences"):
+    for n in CONCURRENT_CLASSES:
+        if not c.get("concurrent_overlaps:" + n):
+            out.append("class %s: no trial in which the second thread's call began while the first was inside its call" % n)
+    for k in ("TypeError_seen", "copies", "random_sequences", "exhaustive_sequences", "placements_driven"):
         if not c.get(k):
             out.append("deciding counter %s is zero" % k)
     return out[:12]
@@ -502,6 +509,7 @@ class Driver(object):
     def __init__(self, cfg, ctx, leg):
         self.cfg, self.ctx, self.leg = cfg, ctx, leg
         self.next_id = 0
+        self.no_output_kw = set()
 
     def run(self, nsteps, choose, datafn):
         """choose(i, primary_model) -> symbol.  Returns (sequence, index at which every object had ended | None)."""
@@ -566,11 +574,34 @@ class Driver(object):
             clone = Obj(c, o.model.clone(), self.next_id, True, list(o.hist))
             self.next_id += 1
             return True, clone
+        placement = None
+        if self.leg == "random" and call.kind == "ok" and call.method in ("encrypt", "decrypt") and len(call.args) == 1 \
+                and isinstance(call.args[0], bytes) and call.args[0] and key not in self.no_output_kw:
+            # a permitted encrypt()/decrypt() may also be asked to write into a caller's buffer, or over its own input:
+            # "the same ciphertext, plaintext and tag as the one-shot computation" holds for those presentations as well
+            placement = ctx.rng.choice([None, None, "output", "in-place"])
         try:
-            outcome = ("ok", getattr(o.obj, call.method)(*call.args))
+            if placement is None:
+                outcome = ("ok", getattr(o.obj, call.method)(*call.args))
+            else:
+                buf = bytearray(call.args[0]) if placement == "in-place" else bytearray(len(call.args[0]))
+                try:
+                    r_ = getattr(o.obj, call.method)(buf if placement == "in-place" else call.args[0], output=buf)
+                    outcome = ("ok", bytes(buf) if r_ is None else r_)
+                    ctx.count("placement:%s:%s" % (placement, name))
+                    ctx.count("placements_driven")
+                except TypeError as e:
+                    if "output" not in str(e):
+                        raise
+                    # this class has no output= parameter: the plain call is made instead (nothing was consumed)
+                    self.no_output_kw.add(key)
+                    placement = None
+                    outcome = ("ok", getattr(o.obj, call.method)(*call.args))
         except Exception as e:      # noqa
             outcome = (type(e).__name__, e)
         got = outcome[0]
+        if placement:
+            suffix += ":" + placement
         o.hist.append((sym, call.args, got))
         kind = call.kind
         if kind == "skip":
@@ -623,8 +654,77 @@ def run(spec, ctx):
     if spec["kind"] == "exhaustive":
         for name in spec["classes"]:
             w_exhaustive(build(BY_NAME[name]), spec, ctx)
+    elif spec["kind"] == "concurrent":
+        w_concurrent(spec, ctx)
     else:
         w_random(spec, ctx)
+
+
+def w_concurrent(spec, ctx):
+    """ONE object, two threads: the first calls encrypt() on a buffer large enough for the native routine (which runs
+    without the interpreter lock) to take tens of milliseconds; while it is inside, the second calls decrypt().  Whatever
+    the interleaving, the recorded history (call / return events at the caller) must be explainable by SOME sequential
+    order of the two calls: in every sequential order the documented automaton lets exactly one of them through and the
+    other raises TypeError.  Both returning is not linearizable.  Only trials in which the second call began inside the
+    first one's [call, return] window count as observed."""
+    import threading
+    import time
+    for name in CONCURRENT_CLASSES:
+        entry = BY_NAME[name]
+        big = 4 << 20 if "DES3" in name else 24 << 20
+        overlaps = 0
+        for trial in range(spec["trials"] * 4):
+            if overlaps >= spec["trials"]:
+                break
+            cfg = build(entry)
+            obj = cfg.new()
+            data = bytes(big)
+            ev = {}
+            started = threading.Event()
+            first, second = ("encrypt", "decrypt") if trial % 2 == 0 else ("decrypt", "encrypt")
+
+            def t1():
+                started.set()
+                ev["c1"] = time.monotonic()
+                try:
+                    getattr(obj, first)(data)
+                    ev["r1"] = "ok"
+                except Exception as e:      # noqa
+                    ev["r1"] = type(e).__name__
+                ev["e1"] = time.monotonic()
+
+            def t2():
+                started.wait()
+                time.sleep(0.002 + 0.002 * (trial % 3))
+                ev["c2"] = time.monotonic()
+                try:
+                    getattr(obj, second)(bytes(32))
+                    ev["r2"] = "ok"
+                except Exception as e:      # noqa
+                    ev["r2"] = type(e).__name__
+                ev["e2"] = time.monotonic()
+            a, b = threading.Thread(target=t1), threading.Thread(target=t2)
+            a.start()
+            b.start()
+            a.join()
+            b.join()
+            ctx.count("concurrent_trials:" + name)
+            overlap = ev["c1"] <= ev["c2"] <= ev["e1"]
+            if overlap:
+                overlaps += 1
+                ctx.count("concurrent_overlaps:" + name)
+            ctx.case(("concurrent", name, first, overlap, ev["r1"], ev["r2"]))
+            hist = {"class": name, "first_thread": {"call": first, "bytes": big, "outcome": ev["r1"], "t_call": 0.0,
+                                                      "t_return": round(ev["e1"] - ev["c1"], 5)},
+                    "second_thread": {"call": second, "bytes": 32, "outcome": ev["r2"], "t_call": round(ev["c2"] - ev["c1"], 5),
+                                      "t_return": round(ev["e2"] - ev["c1"], 5)}}
+            ctx.check(not (ev["r1"] == "ok" and ev["r2"] == "ok"), "concurrent:%s:both-directions-accepted" % entry["key"],
+                      "encrypt() and decrypt() of one object both returned: no sequential order of the two calls is permitted by "
+                      "the documented state machine (one of them must raise TypeError)", hist)
+            ctx.check(ev["r1"] in ("ok", "TypeError") and ev["r2"] in ("ok", "TypeError"),
+                      "concurrent:%s:other-exception" % entry["key"],
+                      "a call raised something else than TypeError when two directions were requested from one object", hist)
+            del data
 
 
 def _depth(k, tier, fam, extra=0):
